@@ -159,8 +159,17 @@ func CrashSignature(logPath string) (sig string, excerpt string) {
 	msg := s[loc[0]:loc[1]]
 	rest := s[loc[1]:]
 	frames := []string{}
-	for _, m := range repoFrameRe.FindAllStringSubmatch(rest, 3) {
-		frames = append(frames, strings.TrimPrefix(m[1], "github.com/vipnode/vipnode/v2/"))
+	for _, ln := range strings.Split(rest, "\n") {
+		if !(strings.HasPrefix(ln, "github.com/vipnode/vipnode/v2") || strings.HasPrefix(ln, "main.")) {
+			continue
+		}
+		if i := strings.LastIndex(ln, "("); i > 0 {
+			ln = ln[:i]
+		}
+		frames = append(frames, strings.TrimPrefix(ln, "github.com/vipnode/vipnode/v2/"))
+		if len(frames) == 3 {
+			break
+		}
 	}
 	// normalise numbers in the message so the key is stable
 	msg = regexp.MustCompile(`0x[0-9a-f]+`).ReplaceAllString(msg, "0x..")
